@@ -218,8 +218,93 @@ fn fork_fault_slice(ctx: &Ctx) {
     );
 }
 
+/// A third party stops a foreground child of a shell that does no job control and continues it
+/// later: the shell must go on waiting and report the child's real exit status, exactly as if
+/// nothing had happened. SIGSTOP / SIGCONT are raised on the child from outside at every pair of
+/// scheduler steps.
+pub fn stop_continue_slice(ctx: &Ctx, prop: &'static str) {
+    let scripts = [
+        "( probe -s 0 k1; sig STOP; probe -s 7 k2 ); probe k3 \"$?\"\n",
+        "( probe -s 0 k1; ( sig STOP; probe -s 3 k2 ); probe -s 5 k4 ); probe k3 \"$?\"\n",
+        "( sig TSTP; probe -s 6 k2 ); probe k3 \"$?\"\n",
+        "if ( probe -s 0 k1; sig STOP; probe -s 2 k2 ); then probe k3 then; else probe k3 else; fi\n",
+        "( probe k1; sig STOP; sig STOP; probe -s 9 k2 ) && probe k3 yes || probe k3 \"$?\"\n",
+    ];
+    let scripts = &scripts;
+    ctx.par_for(
+        scripts.len() * 4,
+        |j| stop_continue_one(ctx, prop, scripts[j / 4], [1u64, 2, 5, 11][j % 4]),
+        |i, msg| {
+            if crate::util::panic_in_repo(&msg) {
+                ctx.violation(format!("{prop}:panic:{}", msg.split(": ").next().unwrap_or("")), format!("stop/continue case {i}: {msg}"));
+            } else {
+                ctx.violation("harness-panic", format!("stop/continue case {i}: {msg}"));
+            }
+        },
+    );
+}
+
+/// `delay`: scheduler steps between the moment a process is seen stopped and its SIGCONT
+fn stop_continue_one(ctx: &Ctx, prop: &str, script: &str, delay: u64) {
+    use yash_env::system::r#virtual::SIGCONT;
+    // expected events: the script with the stop signals taken out
+    let plain = script.replace("sig STOP; ", "").replace("sig TSTP; ", "");
+    let base = vsh::run_script(&plain, Strategy::Fifo);
+    let want: Vec<String> = base.events.iter().filter(|e| e.kind == "probe").map(|e| e.args.join(" ")).collect();
+    let mut cfg = vsh::VCfg::script(script);
+    cfg.extra = vsh::v_probes();
+    cfg.tick_on_stall = true;
+    let stopped_since: std::rc::Rc<std::cell::RefCell<std::collections::BTreeMap<i32, u64>>> = Default::default();
+    let continued = std::rc::Rc::new(std::cell::Cell::new(0u32));
+    let (ss, cc) = (std::rc::Rc::clone(&stopped_since), std::rc::Rc::clone(&continued));
+    cfg.on_step = Some(Box::new(move |state, step| {
+        let mut st = state.borrow_mut();
+        let pids: Vec<yash_env::job::Pid> = st.processes.keys().copied().collect();
+        for pid in pids {
+            let Some(p) = st.processes.get_mut(&pid) else { continue };
+            let stopped = matches!(p.state(), yash_env::job::ProcessState::Halted(r) if r.is_stopped());
+            let mut map = ss.borrow_mut();
+            if stopped {
+                let since = *map.entry(pid.0).or_insert(step);
+                if step >= since + delay {
+                    let r = p.raise_signal(SIGCONT);
+                    let ppid = p.ppid();
+                    if r.process_state_changed {
+                        if let Some(pp) = st.processes.get_mut(&ppid) {
+                            let _ = pp.raise_signal(yash_env::system::r#virtual::SIGCHLD);
+                        }
+                    }
+                    map.remove(&pid.0);
+                    cc.set(cc.get() + 1);
+                }
+            } else {
+                map.remove(&pid.0);
+            }
+        }
+    }));
+    let out = vsh::run_v(cfg);
+    ctx.eval();
+    ctx.count("stop_continue_runs", 1);
+    ctx.count("processes_continued_from_outside", continued.get() as i64);
+    let got: Vec<String> = out.events.iter().filter(|e| e.kind == "probe").map(|e| e.args.join(" ")).collect();
+    if out.end != vsh::End::Done || got != want {
+        ctx.violation(
+            format!("{prop}:stop-continue:result-changed"),
+            format!(
+                "a foreground child stops and is continued from outside {delay} steps later\nscript:\n{script}expected events {want:?}\nobserved events {got:?}, end {:?}, shell status {:?}\nstderr:\n{}",
+                out.end,
+                out.status,
+                out.err()
+            ),
+        );
+    } else if continued.get() > 0 {
+        ctx.nontrivial_str(&format!("stopcont|{script}|{delay}"));
+    }
+}
+
 pub fn run(ctx: &Ctx) {
     fork_fault_slice(ctx);
+    stop_continue_slice(ctx, "C13");
     let quick = ctx.quick();
     let nprog = if quick { 1500 } else { 30_000 };
     let dfs_cap: usize = if quick { 60 } else { 400 };
